@@ -120,6 +120,21 @@ def length_rules(facts, rep, w, D, rule="R04.3"):
                         if g[0] == "bool" and peel(g[1])[0] == "call" and peel(g[1])[1] in ("Metadata::is_dir",):
                             isdir = g[2]
                     seen[ft] = (d["len"], isdir, st.line)
+        # alternative shape: the (file_type, len) pair is chosen first, one struct literal afterwards
+        for blk in cb.blocks:
+            if blk.cleanup:
+                continue
+            for st in blk.stmts:
+                if st.kind == "assign" and st.rv.kind == "agg" and st.rv.agg.get("kind") == "tuple" and len(st.rv.ops) == 2:
+                    v = norm(tr.rvalue(st.rv, frozenset()))
+                    a0, a1 = v[1]
+                    if a0[0] == "agg" and a0[1] == "path::VfsFileType":
+                        gs = D.guards(cb, blk.idx)
+                        isdir = None
+                        for g in gs:
+                            if g[0] == "bool" and peel(g[1])[0] == "call" and peel(g[1])[1] in ("Metadata::is_dir",):
+                                isdir = g[2]
+                        seen[a0[2]] = (a1, isdir, st.line)
         okd = "Directory" in seen and seen["Directory"][0] == ("int", 0) and seen["Directory"][1] is True
         okf = "File" in seen and seen["File"][0][0] in ("call", "await") and "Metadata::len" in repr(seen["File"][0]) and seen["File"][1] is False
         n += 2
